@@ -6,7 +6,7 @@ from ..common import Names, rat, run_impl, canon_ballots
 from . import c01
 
 PROP = "C03"
-LEAN_MODULE = "VK.Props.C03"
+LEAN_MODULE = "VK.Props.C03Sample"
 THEOREMS = [
     "VK.C03_no_winner",
     "VK.C03_order",
@@ -25,6 +25,8 @@ THEOREMS = [
     "VK.C03_step_accounting_both",
     "VK.kernel_transfer_value",
     "VK.kernel_transfer_value_used",
+    "VK.sampleK_mass",
+    "VK.C03_sample_inclusion",
 ]
 RULE = ("cases = (a) direct calls of fractional_transfer / random_transfer on ballot lists with duplicates, bullet votes "
         "(exhausting), ballots not led by the winner, ballots listing the winner lower down, 20% with tied lower "
